@@ -153,4 +153,94 @@ theorem no_deadlock {g root s0 s} (h0 : Init g root s0) (r : Reach g s0 s)
     unfold step
     cases hts : tstep g s.sh u (s.thr u) <;> simp_all
 
+
+/-! ## non-vacuity: a concrete grammar, FIFO cache of size 1, two threads on the same input -/
+
+namespace Ex
+def kD : Key := ⟨9, 0, 0, 0⟩   -- top-level driver (parse_string), not a cached call
+def kA : Key := ⟨1, 0, 0, 3⟩   -- And(w, n)
+def kW : Key := ⟨2, 0, 0, 3⟩
+def kN : Key := ⟨3, 0, 1, 3⟩
+def g : Grammar where
+  body k rs :=
+    if k = kD then (if rs.length = 0 then .call kA else .ret 5)
+    else if k = kA then (if rs.length = 0 then .call kW else if rs.length = 1 then .call kN else .ret 5)
+    else if k = kW then .ret 6 else .ret 7
+  cached k := k ≠ kD
+def s0 : State := ⟨{ size := some 1 }, fun _ => Thread.init kD⟩
+def cfg : Cfg := ⟨g, .region, 2⟩
+
+theorem init : Init g (fun _ => kD) s0 :=
+  ⟨fun _ => rfl, rfl, rfl, fun p hp => by simp [s0] at hp⟩
+
+def stepsOf : State → List Tid → Option State
+  | s, [] => some s
+  | s, t :: r => match step g s t with | some s' => stepsOf s' r | none => none
+
+theorem stepsOf_reach' {s'} : ∀ (sched : List Tid) (a s : State), Reach g a s → stepsOf s sched = some s' →
+    Reach g a s'
+  | [], a, s, r, h => by simp [stepsOf] at h; exact h ▸ r
+  | t :: rest, a, s, r, h => by
+    simp only [stepsOf] at h
+    cases hs : step g s t with
+    | none => simp [hs] at h
+    | some s1 => simp [hs] at h; exact stepsOf_reach' rest a s1 (.tail t r hs) h
+
+theorem stepsOf_reach {s sched s'} (h : stepsOf s sched = some s') : Reach g s s' :=
+  stepsOf_reach' sched s s (.refl s) h
+
+/-- thread 0 resets, thread 1 resets, thread 0 parses (3 cache misses, 2 FIFO evictions), thread 1 parses
+    (hits thread 0's surviving entry): both reach `done 5`, and the hypotheses of every theorem above hold -/
+def sched : List Tid := [0,0,0,0, 1,1,1,1] ++ List.replicate 33 0 ++ List.replicate 8 1
+
+example : (stepsOf s0 sched).map (fun s => ((s.thr 0).pc, (s.thr 1).pc, s.sh.cache)) =
+    some (.done 5, .done 5, [(kA, 5)]) := by decide +kernel
+
+example : ∃ s, Reach g s0 s ∧ (s.thr 1).pc = .done 5 ∧ Eval g kD 5 := by
+  cases h : stepsOf s0 sched with
+  | none => exact absurd h (by decide +kernel)
+  | some s =>
+    have hr := stepsOf_reach h
+    have hpc : (s.thr 1).pc = .done 5 := by
+      have : (stepsOf s0 sched).map (fun s => (s.thr 1).pc) = some (.done 5) := by decide +kernel
+      rw [h] at this; simpa using this
+    exact ⟨s, hr, hpc, result_is_serial_answer init hr 1 5 hpc⟩
+
+/-- a state in which a thread is inside the eviction loop and another one is waiting: `touching` and
+    "not finished" hypotheses are satisfiable -/
+example : (stepsOf s0 ([0,0,0,0, 1,1,1,1] ++ List.replicate 18 0)).map
+    (fun s => ((s.thr 0).pc, s.sh.pOwner, s.sh.pCount, touching (s.thr 0).pc, finished (s.thr 1).pc)) =
+    some (.pick 7, some 0, 2, true, false) := by decide +kernel
+end Ex
+
+/-! ## left-recursion mode: the property is FALSE of the current code (finding `lr_mode_shared_memo`) -/
+
+namespace LR
+
+def resultsOf (inputs : List Nat) (sched : List Tid) : Option (List (Option Val × Bool)) :=
+  (lrun (linit inputs) sched []).map fun p => p.1.thr.map fun th => (th.result, th.keyError)
+
+/-- serial run of the thread with input 2: it returns its own body value 3 -/
+theorem lr_serial : resultsOf [1, 2] (List.replicate 15 1) = some [(none, false), (some 3, false)] := by
+  decide +kernel
+
+/-- **lr_race_witness**: thread 1 (input 2) resets, thread 0 (input 1) parses completely, thread 1 parses:
+    its lookup `(loc 0, F, do_actions)` — a key without the input string — hits the entry thread 0's parse
+    left behind (`UnboundedMemo.__delitem__` is a no-op) and it returns thread 0's value 2 instead of 3.
+    Every lock is taken exactly as the code takes it (`evStep` checks it). -/
+theorem lr_race_witness :
+    ∃ sched, resultsOf [1, 2] sched = some [(some 2, false), (some 2, false)] ∧
+      resultsOf [1, 2] (List.replicate 15 1) = some [(none, false), (some 3, false)] :=
+  ⟨[1,1,1,1] ++ List.replicate 15 0 ++ [1,1,1], by decide +kernel, lr_serial⟩
+
+/-- **lr_reset_race_witness**: even on the SAME input: thread 0 is inside its growth loop holding
+    `recursion_lock`; thread 1 enters `parse_string`, whose `reset_cache()` clears `recursion_memos` under
+    `packrat_cache_lock` only; thread 0's `memo[act_key]` (core.py:5725) raises `KeyError`. -/
+theorem lr_reset_race_witness :
+    ∃ sched, resultsOf [1, 1] sched = some [(none, true), (none, false)] ∧
+      resultsOf [1, 1] (List.replicate 15 0) = some [(some 2, false), (none, false)] :=
+  ⟨List.replicate 10 0 ++ [1,1,1] ++ [0], by decide +kernel, by decide +kernel⟩
+
+end LR
+
 end PP.Threads
